@@ -19,6 +19,10 @@ pub enum Entry {
     Garbage,
     /// readable, zero bytes long: still "a file that was read" (malformed), never "no file"
     Empty,
+    /// readable and structurally a TZif file, but not a valid zone (a 2-character designation, a transition to a
+    /// type that does not exist, a footer contradicting the last transition): the decoder reports these through
+    /// error classes other than "bad file" - still a file that was read, never "no file"
+    Invalid(u8),
 }
 
 #[derive(Clone, Debug, PartialEq)]
